@@ -301,18 +301,15 @@ class C03(Prop):
           out += [([i] + sfx, m) for sfx, m in self.sub_paths(fd['elem'], depth + 1)]
     return out
 
-  def unfreeze_inner(self, d, top=False):
-    """No frozen containers in the generated nested-path cases: whether the child created from a frozen
-    default is bound to its spec depends on how it was created (pg.Dict root: bound; pg.Object root and
-    deeper levels: stored unbound), which is outside the model.  The F185 witness (corpus) covers the
-    frozen case on a pg.Dict root."""
+  def tidy_inner(self, d, top=False):
+    """Nested containers are neither noneable nor carry a default unless frozen (a noneable / defaulted
+    nested container re-applies its symbolic default through CustomTyping, outside the model)."""
     if d['k'] in ('list', 'dict', 'tuple', 'union'):
-      d.pop('fz', None)
       d['n'] = 0
-      if not top:
-        d.pop('d', None)       # (a nested / noneable container default is re-applied through CustomTyping)
+      if not top and not d.get('fz'):
+        d.pop('d', None)
     for sub in ([d['elem']] if 'elem' in d else []) + d.get('elems', []) + d.get('cands', []) + [f for _, f in (d.get('fields') or [])]:
-      self.unfreeze_inner(sub)
+      self.tidy_inner(sub)
 
   def gen_nested(self, rng, g, kind):
     """Dict / Object whose container-typed fields are rewritten through nested key paths
@@ -330,7 +327,11 @@ class C03(Prop):
               if c.get('d') == ['N'] or not rng.chance(0.3):
                 c.pop('d', None)
                 c.pop('fz', None)
-              self.unfreeze_inner(c, top=True)
+              self.tidy_inner(c, top=True)
+              if c.get('d') is None and rng.chance(0.2):
+                v = g.valid(c)
+                if v not in (['N'], ['M']):
+                  c['d'], c['fz'] = v, True       # a frozen container field: its content is sealed
               fd = c if rng.chance(0.8) else {'k': 'union', 'cands': [c, {'k': 'str', 'rx': None, 'n': 0}], 'n': 0}
               break
         fields.append([['c', nm], fd])
@@ -363,6 +364,8 @@ class C03(Prop):
           if fd is not None and fd['k'] == 'union':
             cont = ([c for c in fd['cands'] if c['k'] in ('list', 'dict')] or [fd])[0]
           step = 0 if (cont is not None and cont['k'] == 'list') else 'y'
+          if rng.chance(0.15):
+            step = 'y' if step == 0 else 0      # a key of the wrong kind for the container (KeyError)
           path, m = [k] + ([step] if rng.chance(0.5) else []), (fd if fd is not None else None)
           if len(path) > 1:
             m = None
@@ -651,7 +654,7 @@ class C03(Prop):
       err = None
       try:
         run_list_op(pg, lst, op)
-      except (TypeError, ValueError, KeyError, IndexError) as e:
+      except (TypeError, ValueError, KeyError, IndexError, pg.WritePermissionError) as e:
         err = type(e).__name__
       n0 = len(why)
       m['steps'].append({'err': err, 'items': tv.from_py(lst)[1], 'conforms': conforms(lst)})
@@ -707,7 +710,7 @@ class C03(Prop):
       try:
         with ctx:
           run_dict_op(pg, target, pyop, is_object)
-      except (TypeError, ValueError, KeyError, IndexError) as e:
+      except (TypeError, ValueError, KeyError, IndexError, pg.WritePermissionError) as e:
         err = type(e).__name__
       # every symbolic member still knows its place (parent and key), also after a rejected write
       att = True
@@ -826,7 +829,7 @@ class C03(Prop):
           add('required-field-missing:%s:%s' % (kind, op[0]),
               'after %s (never partial) a required field is missing: %s' % (json.dumps(op), json.dumps(s['items'])))
       bad_before = bad
-      if s['err'] in SCHEMA_ERRS:
+      if s['err'] in SCHEMA_ERRS + ('WritePermissionError',):
         batch = op[0] in ('extend', 'iadd', 'extend_iter', 'iadd_iter', 'imul', 'setslice', 'rebind', 'update', 'ior', 'rebind_paths')
         if not batch and s['items'] != prev:
           add('rejected-write-stored:%s:%s' % (kind, op[0]),
